@@ -70,9 +70,9 @@ def try_name_anonymous_bloch(bsr: BlochSphereRotation) -> BlochSphereRotation:
     for gate_function in default_bloch_sphere_rotations_without_params:
         gate = gate_function(*bsr.get_qubit_operands())
         if (
-            np.allclose(gate.axis, bsr.axis)
-            and np.allclose(gate.angle, bsr.angle)
-            and np.allclose(gate.phase, bsr.phase)
+            np.allclose(gate.axis, bsr.axis, rtol=0, atol=ATOL)
+            and np.allclose(gate.angle, bsr.angle, rtol=0, atol=ATOL)
+            and np.allclose(gate.phase, bsr.phase, rtol=0, atol=ATOL)
         ):
             return gate
     return bsr
